@@ -7,7 +7,7 @@ import Rpft.Drv.Flow
 import Rpft.Drv.Campaign
 import Rpft.Drv.Infer
 import Rpft.Drv.Uuid
-open Lean Rpft.Drv
+open Lean Rpft.Drv Rpft.Drv.CampaignD Rpft.Drv.CellD Rpft.Drv.FlowD Rpft.Drv.InferD Rpft.Drv.UuidD
 
 def dispatch (j : Json) : Except String Json := do
   let opj ← j.getObjVal? "op"
